@@ -117,8 +117,11 @@ def schedOp (j : Json) : Except String Json := do
     match routineOf name check with
     | none => throw s!"unknown routine {name}"
     | some r =>
+      let exports := match tj.getObjVal? "exports" with | .ok v => (v.getNat?.toOption.getD 0) | _ => 0
       let a : Args String := { decoy := s!"decoy{i}", ref := "ref", tmp := s!"tmp{i}",
-                               zone := if usez then some "zone" else none }
+                               zone := if usez then some "zone" else none,
+                               out1 := if exports ≥ 1 then some s!"out1{i}" else none,
+                               out2 := if exports ≥ 2 then some s!"out2{i}" else none }
       progs := progs ++ [prog W r a]
     i := i + 1
   let fs : FS String String := fun p =>
